@@ -39,8 +39,15 @@ RULES = {
               "face is addressed with the local indices returned for that same face",
     "C08-N1": "the number of coefficients allocated for a COO assembly covers the entries emitted (slots distinct, counter advanced once per entry)",
     "C08-T1": "parallel transport tables of the face / edge connections are antisymmetric: T[(a,b)] + T[(b,a)] = 0, both stored in the same block",
-    "C08-D1": "cotan_edge_diagonal: the inverse branch is 1/x of the direct branch",
+    "C08-D1": "cotan_edge_diagonal: the inverse branch is 1/x of the direct branch; the two half weights come from the two sides of the edge",
+    "C08-B1": "local bases are right handed (Y = normal x X, faces: (X, Y) of face_basis), project returns (X.V, Y.V), edge angles are atan2(E.Y, E.X) in one basis",
 }
+
+ASSUMPTIONS = [
+    "scipy sums duplicate (row, col) entries of a COO triple list when converting to csc/csr",
+    "`order` is an integer (phases are compared modulo 2*pi*order)",
+    "the vertex / cell adjacency relations used by the neighbour loops are symmetric (C01 / C03)",
+]
 
 
 def run(ctx):
@@ -55,6 +62,7 @@ def run(ctx):
     n1_allocation(ctx)
     t1_transport(ctx)
     d1_inverse_branch(ctx)
+    b1_local_bases(ctx)
 
 
 # ----------------------------------------------------------------------- stencil units
@@ -106,7 +114,7 @@ class Values:
         return f
 
     def poly(self, e, at):
-        return sym.to_poly(e, atom_of=self.atom_of(at))
+        return sym.to_poly(self.b.resolve(e, at=at), atom_of=self.atom_of(at))
 
 
 def has_phase(e):
@@ -594,8 +602,8 @@ def s4_gradient(ctx):
                     ok = True
                 if isinstance(s, ast.Assign) and isinstance(s.targets[0], ast.Name) and s.targets[0].id == M and sym.to_poly(s.value) == Poly.atom(M).scale(2):
                     ok = True
-        base = b.defs.get(M)
-        ok = ok and base is not None and au.src(base).endswith("faces)")
+        bases = [v for x in au.stmts(fn.body) for nm, v in sym.split_assign(x) if nm == M and isinstance(v, ast.Call) and au.call_tail(v) == "len"]
+        ok = ok and len(bases) == 1 and au.chain(bases[0].args[0]) is not None and au.chain(bases[0].args[0])[-1] == "faces"
     ctx.check(ok, "C08-S4", site, "gradient: the real branch does not double the number of rows of the |F| x |V| shape",
               "rows 2*iT and 2*iT+1 need 2|F| rows", note="real branch has 2|F| rows")
 
@@ -641,8 +649,10 @@ def m1_mass(ctx):
                     loops = [x for x in au.ancestors(a) if isinstance(x, ast.For)]
                     if kind == "vertices":
                         # for i,row in enumerate(mesh.<measure>): for u in row: (unguarded)
+                        rowvar = loops[1].target.elts[1] if len(loops) == 2 and isinstance(loops[1].target, ast.Tuple) and len(loops[1].target.elts) == 2 else None
                         ok = len(loops) == 2 and not au.guards(a) and K.kind(loops[1].iter) == ("seq", ("tup", (measure, ("row", measure)))) \
-                            and K.kind(loops[0].iter) == ("row", measure) and coef == 1
+                            and isinstance(rowvar, ast.Name) and isinstance(loops[0].iter, ast.Name) and loops[0].iter.id == rowvar.id and coef == 1 \
+                            and not any(isinstance(x, (ast.Continue, ast.Break)) for lp in loops for x in au.stmts(lp.body))
                         if not ok:
                             problems.append(f"`{au.src(a)}` is not executed once for every (element, vertex) incidence of mesh.{measure} with weight 1")
                     else:
@@ -656,6 +666,8 @@ def m1_mass(ctx):
                         and au.call_tail(s.value) == "as_array" and any(isinstance(t, ast.Name) and t.id == diag for t in s.targets)]
                 if len(srcs) != 1 or K.kind(srcs[0].value.func.value) != ("idx", measure) or accs:
                     problems.append(f"the diagonal is not the {measure[:-1]} measure attribute itself (`attr.as_array(len(mesh.{measure}))`)")
+                elif len(srcs[0].value.args) != 1 or K.kind(srcs[0].value.args[0]) != ("len", measure):
+                    problems.append(f"`{au.src(srcs[0].value)}` does not size the array by len(mesh.{measure}) (a sparse attribute is expanded to that length)")
             # switches
             ps = au.params(fn)
             for sw, test in (("sqrt", lambda v: isinstance(v, ast.Call) and au.call_tail(v) == "sqrt" and au.src(v.args[0]) == diag),
@@ -949,7 +961,7 @@ def t1_transport(ctx):
             done.update((id(s), id(t)))
             first, second = (s, t) if s.lineno <= t.lineno else (t, s)
             p1 = sym.to_poly(b.resolve(first.value, at=first))
-            key1 = au.norm(first.targets[0]).replace("Store()", "Load()")
+            key1 = au.norm(b.resolve(first.targets[0], at=first)).replace("Store()", "Load()")
 
             def atom(e, p1=p1, key1=key1):
                 if isinstance(e, ast.Subscript) and au.norm(e) == key1:
@@ -991,3 +1003,74 @@ def d1_inverse_branch(ctx):
     ctx.check(len(args) == 2 and args[0] == args[1][::-1] and args[0][0] != args[0][1], "C08-D1", site,
               f"cotan_edge_diagonal: the two incident faces are queried as direct_face{tuple(args[0]) if args else ''} and direct_face{tuple(args[1]) if len(args) > 1 else ''}",
               "the two triangles of an edge (u,v) are direct_face(u,v) and direct_face(v,u)", note="both sides of the edge")
+
+
+# ----------------------------------------------------------------------- C08-B1
+def b1_local_bases(ctx):
+    """orientation of the local bases the operators are expressed in: (X, Y, normal) right handed, project = (X.V, Y.V),
+    transport angles measured as atan2(E.Y, E.X) in one and the same basis"""
+    n = 0
+    # project
+    for cls in ("SurfaceConnection", "FlatConnectionVertices", "FlatConnectionFaces"):
+        fn = ctx.repo.func(CONN, cls + ".project")
+        r = [s for s in au.stmts(fn.body) if isinstance(s, ast.Return) and s.value is not None]
+        ok = False
+        if len(r) == 1 and isinstance(r[0].value, ast.Call) and len(r[0].value.args) == 2:
+            bases = []
+            for a in r[0].value.args:
+                names = {x.attr for x in ast.walk(a) if isinstance(x, ast.Attribute) and x.attr in ("_baseX", "_baseY")}
+                bases.append(names)
+            ok = bases == [{"_baseX"}, {"_baseY"}] and all(isinstance(a, ast.Call) and au.call_tail(a) == "dot" for a in r[0].value.args)
+        n += 1
+        ctx.check(ok, "C08-B1", ctx.site(CONN, fn), f"{cls}.project does not return (baseX . V, baseY . V)",
+                  "gradient() reads (x, y) = project(...): swapped or mixed components rotate every gradient", note=f"{cls}.project = (X.V, Y.V)")
+    # faces: X, Y from face_basis in order
+    fn = ctx.repo.func(CONN, "SurfaceConnectionFaces._initialize")
+    b = sym.Bindings(fn)
+    fb = [s for s in au.stmts(fn.body) if isinstance(s, ast.Assign) and isinstance(s.value, ast.Call) and au.call_tail(s.value) == "face_basis"
+          and isinstance(s.targets[0], ast.Tuple) and len(s.targets[0].elts) == 3]
+    ok = False
+    if len(fb) == 1:
+        x, y, _ = (au.src(t) for t in fb[0].targets[0].elts)
+        blk, _o = au.enclosing_block(fb[0])
+        st = {s.targets[0].value.attr: au.src(s.value) for s in blk if isinstance(s, ast.Assign) and isinstance(s.targets[0], ast.Subscript)
+              and au.is_self_attr(s.targets[0].value)}
+        ok = st.get("_baseX") == x and st.get("_baseY") == y
+    n += 1
+    ctx.check(ok, "C08-B1", ctx.site(CONN, fn), "SurfaceConnectionFaces: (baseX, baseY) are not the first and second vector of geom.face_basis of the face",
+              "face_basis returns a right-handed (X, Y, normal)", note="face bases = (X, Y) of face_basis")
+    # transport angles atan2(E.Y_k, E.X_k)
+    at = [c for c in au.calls(fn) if au.call_tail(c) == "atan2" and len(c.args) == 2]
+    for c in at:
+        n += 1
+        ry, rx = (b.resolve(a, at=c) for a in c.args)
+
+        def base_of(e):
+            hits = [(x.value.attr, au.src(x.slice)) for x in ast.walk(e) if isinstance(x, ast.Subscript) and au.is_self_attr(x.value) and x.value.attr in ("_baseX", "_baseY")]
+            return hits[0] if len(hits) == 1 else None
+        by, bx = base_of(ry), base_of(rx)
+        ok = by is not None and bx is not None and by[0] == "_baseY" and bx[0] == "_baseX" and by[1] == bx[1]
+        ctx.check(ok, "C08-B1", ctx.site(CONN, fn, c), f"SurfaceConnectionFaces: edge angle `{au.src(c)}` is not atan2(E . baseY[T], E . baseX[T]) in one face basis",
+                  "the angle of the shared edge must be measured counter-clockwise from X in each face's own basis", note="edge angle = atan2(E.Y, E.X)")
+    # vertices / edges: Y = normal x X
+    for cls, normal in (("SurfaceConnectionVertices", None), ("SurfaceConnectionEdges", None)):
+        fn = ctx.repo.func(CONN, cls + "._initialize")
+        b = sym.Bindings(fn)
+        sy = [s for s in au.stmts(fn.body) if isinstance(s, ast.Assign) and isinstance(s.targets[0], ast.Subscript) and au.is_self_attr(s.targets[0].value, "_baseY")]
+        sx = [s for s in au.stmts(fn.body) if isinstance(s, ast.Assign) and isinstance(s.targets[0], ast.Subscript) and au.is_self_attr(s.targets[0].value, "_baseX")]
+        ok = False
+        if len(sy) == 1 and len(sx) == 1 and au.same(sx[0].targets[0].slice, sy[0].targets[0].slice):
+            yval = b.resolve(sy[0].value, at=sy[0])
+            cr = [c for c in ast.walk(yval) if isinstance(c, ast.Call) and au.call_tail(c) == "cross" and len(c.args) == 2]
+            cr = [c for c in cr if not any(c is not d and any(c is x for x in ast.walk(d)) for d in cr)]   # outermost
+            if len(cr) == 1:
+                second = b.resolve(cr[0].args[1], at=sy[0])
+                xval = b.resolve(sx[0].value, at=sx[0])
+                key = au.norm(sx[0].targets[0]).replace("Store()", "Load()")
+                x_ok = au.same(second, xval) or au.norm(cr[0].args[1]) == key
+                first = b.resolve(cr[0].args[0], at=sy[0])
+                ok = x_ok and not au.same(first, xval) and au.norm(cr[0].args[0]) != key
+        n += 1
+        ctx.check(ok, "C08-B1", ctx.site(CONN, fn), f"{cls}: baseY is not cross(normal, baseX) of the same element",
+                  "the tangent basis must be right handed with respect to the normal: cross(X, Y) = N", note=f"{cls}: Y = N x X")
+    ctx.require_count("C08-B1 basis sites", n, 8)
